@@ -88,6 +88,22 @@ inductive Typing (s : Schema) : Option Ty → Forest Unit → Forest Ann → Pro
       Typing s ctx (.elem () n ats x kids rest)
         (.elem ⟨none, none⟩ n ats x (kids.map fun _ => ⟨none, none⟩) rest')
 
+/-- type assignment when assessment starts at an element with a declaration STIPULATED by the
+processor (XSD 1.1 Part 1 §3.3.4.6 clause 1.1.1 "a declaration was stipulated by the processor"):
+the element is governed by that declaration and its children by the content model of the
+declaration's type.  For the evaluation of an assertion (§3.13.4.1 Assertion Satisfied) the tree
+rooted at the element is the partial PSVI in which "the element itself is untyped": its annotation
+is `xs:anyType`, while its attributes and descendants carry the types of the complex type that
+holds the assertion. -/
+inductive TypingB (s : Schema) : Option BaseElem → Forest Unit → Forest Ann → Prop
+  | default (t : Forest Unit) (a : Forest Ann) : Typing s none t a → TypingB s none t a
+  | stipulated (b : BaseElem) (n : String) (ats : List (String × String)) (x : Xsi)
+      (kids rest : Forest Unit) (kids' : Forest Ann) :
+      Typing s (some b.decl.type) kids kids' →
+      TypingB s (some b) (.elem () n ats x kids rest)
+        (.elem ⟨some (if b.assertion then .simple (.builtin .anyType) else b.decl.type), some b.decl⟩
+          n ats x kids' (rest.map fun _ => ⟨none, none⟩))
+
 /-- consistency of a schema, required by XSD itself: global element names are unique
 (§3.3.6 / sch-props-correct) and a content model attributes every name to one declaration
 (§3.8.6.3 "Element Declarations Consistent" together with unique particle attribution) -/
